@@ -115,6 +115,32 @@ let u_call (fn : string) (a : string list) : string =
   | "maxLeafCount" -> string_of_n (maxLeafCount (n 0))
   | _ -> failwith ("unknown utils function " ^ fn)
 
+(* geometry specification (Spec/Geometry.v): function codes and the implementation's answer as numbers *)
+let geom_code = function
+  | "Parent" -> 1 | "LeftChild" -> 2 | "RightChild" -> 3 | "DetectRow" -> 4 | "ParentMany" -> 5
+  | "ChildMany" -> 6 | "sibling" -> 7 | "rootPosition" -> 8 | "RootPositions" -> 9 | "translatePos" -> 10
+  | "TreeRows" -> 11 | "inForest" -> 12 | "isRootPosition" -> 13 | "DetectOffset" -> 14 | "ProofPositions" -> 15 | _ -> 0
+let geom_impl fn (res : string) : n list option =
+  try
+    (match fn with
+     | "ParentMany" | "ChildMany" -> if res = "err" then Some [N0] else Some [n_of_string "1"; n_of_string res]
+     | "RootPositions" -> Some (ns_of res)
+     | "ProofPositions" ->
+       (match String.split_on_char ' ' res with
+        | [a; b] -> Some (ns_of a @ [n_of_string "18446744073709551616"] @ ns_of b)
+        | _ -> None)
+     | "DetectOffset" ->
+       if res = "err" then Some [] else
+         (match String.split_on_char '/' res with
+          | [a; b; c] ->
+            let bl = Zr.of_string b in
+            let cz = Zr.of_string c in
+            let low = if Zr.to_int bl >= 64 then cz else Zr.logand cz (Zr.pred (Zr.shift_left Zr.one (Zr.to_int bl))) in
+            Some [n_of_string a; n_of_string b; n_of_z low]
+          | _ -> None)
+     | _ -> Some [n_of_string res])
+  with _ -> None
+
 let outcome_str = function Ok _ -> "ok" | Err -> "err" | Panic -> "panic" | OutOfFuel -> "hang"
 
 (* ---------- event dispatch ---------- *)
@@ -148,7 +174,19 @@ let handle (toks : string list) =
     let got = String.concat " " res in
     let exp = (try u_call fn args with Failure m -> "EXC:" ^ m) in
     check "mirror" ("U." ^ fn) (String.equal exp got)
-      (fun () -> Printf.sprintf "args=%s model=%s impl=%s" (String.concat " " args) exp got)
+      (fun () -> Printf.sprintf "args=%s model=%s impl=%s" (String.concat " " args) exp got);
+    let code = geom_code fn in
+    if code <> 0 then
+      (match (try Some (if fn = "ProofPositions"
+                        then (match args with [ts; n; h] -> n_of_string n :: n_of_string h :: ns_of ts | _ -> failwith "pp")
+                        else List.map n_of_string args) with _ -> None) with
+       | Some nargs ->
+         (match geom_expect (n_of_z (Zr.of_int code)) nargs, geom_impl fn got with
+          | Some e, Some i ->
+            check "prop" ("GEOM." ^ fn) (e = i)
+              (fun () -> Printf.sprintf "args=%s geometry=%s impl=%s" (String.concat " " args) (str_ns e) got)
+          | _, _ -> ())
+       | None -> ())
   | ["ROOTS"; label; n; rs] ->
     let c = ctx () in
     check "prop" ("ROOTS." ^ label) (chk_roots ops c (n_of_string n) (hashes_of rs))
